@@ -33,12 +33,16 @@ class LintVisitor(ModelVisitor):
         rhs_nonrand = IsNonRandExprVisitor().is_nonrand(e.rhs)
         
         if lhs_nonrand and not rhs_nonrand:
-            lhs_v = e.lhs.val()
-            rhs_w = e.rhs.width()
+            pass
             
 #            print("lhs_v=%d rhs_w=%d" % (int(lhs_v), rhs_w))
         elif rhs_nonrand and not lhs_nonrand:
-            rhs_v = e.rhs.val()
+            try:
+                rhs_v = int(e.rhs.val())
+            except Exception:
+                # The lint is advisory: skip an operand whose value
+                # cannot be computed here (e.g. it contains an 'in')
+                return
             lhs_w = e.lhs.width()
             lhs_s = e.lhs.is_signed()
             
